@@ -1,6 +1,7 @@
 import BeyondVerif.Lemmas.Calendar
 import BeyondVerif.Generated.Sgp4BetaR
 import BeyondVerif.Generated.Sgp4WrapBind
+import BeyondVerif.Generated.Sgp4BetaInst
 import Mathlib.Tactic.LinearCombination
 import Mathlib.Tactic.NormNum
 import Mathlib.Tactic.FieldSimp
@@ -204,6 +205,72 @@ satellite record changes the key and the setter runs again); and the class has n
 theorem bind_key_covers_regen :
     (∀ r ∈ fromOrbitReads, r ∈ labelReads ∨ ∀ k ∈ coveredBy r, k ∈ stateKeyReads)
       ∧ sgp4Members = ["orbit", "orbit.setter", "_state", "propagate"] := by decide
+
+/-! ### The native propagator as objects: several instances alive, any interleaving -/
+section NativeInstances
+open BeyondVerif.Sgp4Inst
+
+theorem native_bind_consistent {O I T K : Type} (m : Native O I T K) (s : State O I) (hs : Consistent m s) (i : Nat) (o : O) :
+    Consistent m (Sgp4Inst.bind m s i o) := by
+  intro j o' c h
+  simp only [Sgp4Inst.bind] at h
+  by_cases hj : j = i
+  · rw [if_pos hj] at h
+    cases h
+    rfl
+  · rw [if_neg hj] at h
+    exact hs j o' c h
+
+/-- a fresh instance bound to `o` answers `prop o (init o) t` — wherever the `Init` object lives -/
+theorem native_fresh_reply {O I T K : Type} (m : Native O I T K) (st : Storage) (o : O) (t : T) :
+    reply m st (Sgp4Inst.bind m State.empty 0 o) 0 t = some (m.prop o (m.init o) t) := by
+  cases st <;> simp [reply, Sgp4Inst.bind]
+
+/-- Clause "the native implementation returns the same state …", for OBJECTS: with the constants kept per instance (what the
+source does: `Init()` is created by the setter, `native_init_per_instance`), the reply of an instance after ANY interleaving of
+bindings, re-bindings and propagations of any number of instances is the reply of a fresh instance bound to the orbit that
+instance is bound to at that call. -/
+theorem native_reply_eq_fresh {O I T K : Type} (m : Native O I T K) :
+    ∀ (ops : List (Sgp4Inst.Op O T)) (s : State O I), Consistent m s →
+      ∀ x ∈ run m Storage.perInstance s ops, x.2.2.2 = x.2.2.1.map (fun o => m.prop o (m.init o) x.2.1) := by
+  intro ops
+  induction ops with
+  | nil => intro s _ x hx; simp [run] at hx
+  | cons op rest ih =>
+    intro s hs x hx
+    cases op with
+    | bind i o => exact ih _ (native_bind_consistent m s hs i o) x (by simpa [run] using hx)
+    | propagate i t =>
+      simp only [run, List.mem_cons] at hx
+      rcases hx with rfl | hx
+      · simp only [reply, boundOrbit]
+        cases hb : s.bound i with
+        | none => rfl
+        | some oc =>
+          obtain ⟨o, c⟩ := oc
+          have := hs i o c hb
+          subst this
+          rfl
+      · exact ih s hs x hx
+
+theorem native_reply_eq_fresh_new {O I T K : Type} (m : Native O I T K) (ops : List (Sgp4Inst.Op O T)) :
+    ∀ x ∈ run m Storage.perInstance State.empty ops, x.2.2.2 = x.2.2.1.map (fun o => m.prop o (m.init o) x.2.1) :=
+  native_reply_eq_fresh m ops State.empty (by intro i o c h; simp [State.empty] at h)
+
+/-- the storage hypothesis is needed: with ONE `Init` object for the class, binding a second instance changes what the first answers
+(elements of orbit 1, constants of orbit 2) -/
+example : run idNative Storage.shared State.empty [Sgp4Inst.Op.bind 0 1, Sgp4Inst.Op.bind 1 2, Sgp4Inst.Op.propagate 0 0]
+    = [(0, 0, some 1, some (1, 2))] := by decide
+example : run idNative Storage.perInstance State.empty [Sgp4Inst.Op.bind 0 1, Sgp4Inst.Op.bind 1 2, Sgp4Inst.Op.propagate 0 0]
+    = [(0, 0, some 1, some (1, 1))] := by decide
+
+/-- … and the source is in the per-instance case, as read from the AST of sgp4beta.py on every run: `Init()` is created inside the
+setter and bound to `self._init`, and everything `propagate` reads of `self` is assigned on the instance by the setter. -/
+theorem native_init_per_instance :
+    BeyondVerif.Sgp4BetaInst.initStorage = Storage.perInstance
+      ∧ ∀ a ∈ BeyondVerif.Sgp4BetaInst.propagateSelfReads, a = "__class__" ∨ a ∈ BeyondVerif.Sgp4BetaInst.setterSelfWrites := by decide
+
+end NativeInstances
 
 /-! ## Part 2: the native implementation (formulas translated from sgp4beta.py) -/
 open BeyondVerif.R
